@@ -3,15 +3,18 @@
 ENUM x SEQ (model checking).  A virtual root fans out into the *full product* of
 constructions
 
-    declared type D (absent, deferred, intrinsic scalar, intrinsic with shape, derived with /
-    without typedef, procedure, derived-type name)  x  dimensions (absent, None, (i,), (:,))
-    x  parent (none, typed derived variable -> scalar member, -> array member, untyped)
+    declared type D (absent, deferred, deferred data type that carries a shape, intrinsic scalar,
+    intrinsic with shape, derived with / without typedef, procedure, derived-type name)
+    x  dimensions (absent, None, (i,), (:,))
+    x  parent (none, typed derived variable -> scalar member, -> array member, untyped,
+               derived type known by name only -> array member)
     x  scope (none, D recorded in the symbol's own scope, D recorded only in the parent scope)
     x  explicit `type=` (absent, each type of the tier's pool)
 
 and from every construction a level-synchronous BFS explores *update histories* on the real
 objects (two nested real `Scope`s, real `Variable(...)` products): table assignment, table
-deletion, creation of a further symbol by name (with/without scope, type, subscripts),
+deletion, replacing the type recorded for the parent `p` (with / without type definition; nothing is
+read afterwards, so stale member entries stay in the table), creation of a further symbol by name (with/without scope, type, subscripts),
 `clone(type=...)`, `clone()`, `rescope(scope)`, `clone(scope=None)`.  States are merged on the
 canonical projection (raw table contents + set of live symbol descriptors).
 
@@ -20,7 +23,9 @@ Reference model (written from the docstrings of `Variable`, `TypedSymbol`, `clon
 
  K1 class   every creating operation yields the class of the documented tier algorithm applied to
             the effective type (explicit `type=`, else the type visible for the name from the scope,
-            innermost table first, and for `p%b` the member type of the parent's type definition):
+            innermost table first, and - when that entry has no data type - for `p%b` the member type of
+            the parent's type definition; for creation by name this is strict, so the class always agrees
+            with the symbol's own `.type`):
             procedure type -> ProcedureSymbol; derived type named like the symbol -> DerivedTypeSymbol;
             subscripts given or declared shape -> Array; other known type -> Scalar; else
             DeferredTypeSymbol.
@@ -684,7 +689,8 @@ def run(ctx):
         evaluations=transitions, distinct_nontrivial=len(seen), exhaustive=not capped,
         rule='virtual root -> every construction of the product D x dims x parent x scope x explicit-type (scope=none carries the '
              'type in `type=`); then BFS over update events '
-             f'(set/del in either scope with types {cfg["U"]}; Variable(...) by name with scope in (none, outer, inner), type in '
+             f'(set/del in either scope with types {cfg["U"]}; replacing the parent\'s recorded type by one with / without '
+             f'typedef; Variable(...) by name with scope in (none, outer, inner), type in '
              f'(absent, {cfg["E"]}), subscripts {cfg["new_dims"]}; clone(type=) / clone() / clone(scope=None) / rescope(outer|inner) '
              'of every distinct live symbol); states merged on raw table contents + set of live-symbol descriptors; every '
              'transition runs on the real objects and is compared with the reference model (class, reported type of every live '
